@@ -470,6 +470,6 @@ PROP = C02()
 
 MANIFEST = dict(
     technique="Lean 4 proof over an executable model of images.py (serialize / deserialize / add mirrored statement by statement, validators and version gates regenerated from the source) + byte-exact differential check of dumps/loads against the real library + round-trip oracle on the real library",
-    text="Theorem C02_readback_partial: for every manifest (any number of variants, arches, images per cell, objects filed in several cells) whose compose section and images validate (generated rule lists), whose cells are keyed by admissible arches, whose integer attributes are ints and which satisfies identity uniqueness, serialize succeeds, deserialize of the written document succeeds, and the manifest read holds exactly the same multiset of (variant, arch, 15-attribute record) filings (C02_cells per cell, C02_all overall), compose section in normal form (C02_compose_norm_id: identity when a label is set or final is False), current version; C02_cycle_closed: the result satisfies the hypotheses again. C02_image_roundtrip / C02_compose_roundtrip are the field-level statements. C02_fixpoint: with distinct paths inside every cell the re-read manifest is written to a document with the same canonical form, hence the same bytes (the image table is a function of the multiset of filings: toPy_canon_perm); C02_bytes: dumps -> loads -> dumps returns the identical text, with json.load o print = id as explicit hypothesis. C02_empty_cells_not_written / C02_document_of_filings: cells may be empty sets and variants may lack arches (images removed through the public containers); the writer emits a key exactly for variants / (variant, arch) pairs that have a filing and never an empty list, and the document depends on the manifest only through its filings. C02_reload_canon (Img.reload_canon): the reader does not depend on the key order of the written document - deserialize(doc) and deserialize(key-sorted doc) both succeed and give the same content (Img.Same); C02_bytes_parsed: dumps -> modelled CPython json parser -> loads -> dumps returns the identical text from hypotheses on the OBJECT only (validators pass, containers hold JSON values, integers within the digit limit), no hypothesis about the library model left. Hypotheses are necessary: C02_F11_witness, C02_bool_int_witness (decide).",
+    text="Theorem C02_readback_partial: for every manifest (any number of variants, arches, images per cell, objects filed in several cells) whose compose section and images validate (generated rule lists), whose cells are keyed by admissible arches and which satisfies identity uniqueness, serialize succeeds, deserialize of the written document succeeds, and the manifest read holds exactly the same multiset of (variant, arch, 15-attribute record) filings (C02_cells per cell, C02_all overall), compose section in normal form (C02_compose_norm_id: identity when a label is set or final is False), current version; C02_cycle_closed: the result satisfies the hypotheses again. C02_image_roundtrip / C02_compose_roundtrip are the field-level statements. C02_fixpoint: with distinct paths inside every cell the re-read manifest is written to a document with the same canonical form, hence the same bytes (the image table is a function of the multiset of filings: toPy_canon_perm); C02_bytes: dumps -> loads -> dumps returns the identical text, with json.load o print = id as explicit hypothesis. C02_empty_cells_not_written / C02_document_of_filings: cells may be empty sets and variants may lack arches (images removed through the public containers); the writer emits a key exactly for variants / (variant, arch) pairs that have a filing and never an empty list, and the document depends on the manifest only through its filings. C02_reload_canon (Img.reload_canon): the reader does not depend on the key order of the written document - deserialize(doc) and deserialize(key-sorted doc) both succeed and give the same content (Img.Same); C02_bytes_parsed: dumps -> modelled CPython json parser -> loads -> dumps returns the identical text from hypotheses on the OBJECT only (validators pass, containers hold JSON values, integers within the digit limit), no hypothesis about the library model left. The hypothesis Uniq is necessary: C02_F11_witness (decide). Integer attributes need no hypothesis: _assert_type accepts a bool only where bool is listed (generated flag Gen.assertTypeBoolStrict read from the method body), so a validated image holds ints (C02_valid_ints_proper) and a bool is refused with TypeError (C02_bool_int_refused, C02_bool_int_refused_witness; F22 repaired).",
     note="JSON parser not modelled (document-level statement; parser exercised by every generated case). F11: a manifest with an identity collision built under a pre-1.1 header is written but refused on reload (known finding).",
     ref="7/C02")
